@@ -36,11 +36,23 @@ int libwifi_parse_radiotap_info(struct libwifi_radiotap_info *info, const unsign
     }
 
     struct ieee80211_radiotap_header *rh = (struct ieee80211_radiotap_header *) frame;
+    uint16_t it_len = le16toh(rh->it_len);
+
+    // The header must at least hold itself, and its length must be representable in info->length
+    if (it_len < sizeof(struct ieee80211_radiotap_header) || it_len > UINT8_MAX) {
+        return -EINVAL;
+    }
+
+    // The iterator validates the version and the header length against the bytes supplied
     struct ieee80211_radiotap_iterator it = {0};
-    int ret = ieee80211_radiotap_iterator_init(&it, (void *) frame, rh->it_len, NULL);
+    int max_length = (frame_len > INT16_MAX) ? INT16_MAX : (int) frame_len;
+    int ret = ieee80211_radiotap_iterator_init(&it, (void *) frame, max_length, NULL);
+    if (ret != 0) {
+        return ret;
+    }
 
     int skipped_antenna = 0;
-    info->length = rh->it_len;
+    info->length = (uint8_t) it_len;
 
     while (!ret) {
         switch (it.this_arg_index) {
